@@ -51,6 +51,9 @@ PPoK == IsTrue(Ev.res) = (Ev.mismatch = "none")
 PRange ==
   IF Ev.case = "honest" THEN IsTrue(Ev.res)
   ELSE IF Ev.case \in {"outside", "other_bounds", "other_bases", "other_modulus"} THEN ~IsTrue(Ev.res)
+  \* shifted proofs (E / g^d with the responses of the larger-interval proofs moved by 2^T d c): accepted
+  \* only where the tolerance of the larger-interval proof is not below one unit (F13)
+  ELSE IF Ev.case \in {"shifted:a-1", "shifted:b+1", "shifted:a-w", "shifted:b+w"} THEN IsTrue(Ev.res) = ("F13" \in Dev)
   ELSE IsTrue(Ev.res) = ("F8" \in Dev)                 \* transplants succeed only without the anchoring
 
 \* ---- C17 ------------------------------------------------------------------
